@@ -27,6 +27,7 @@ def main():
     sys.stdout.flush()
     sys.stderr.flush()
     _kill_descendants()
+    build._cleanup()        # os._exit skips atexit handlers: remove the scratch directory here
     os._exit(rc)
 
 
